@@ -233,7 +233,7 @@ var skipInit = map[string]bool{
 	"os/exec": true, "os/signal": true, "os/user": true, "net": true, "crypto/rand": true, "math/rand": true, "math/rand/v2": true,
 	"internal/reflectlite": true, "sync": true, "sync/atomic": true, "internal/bytealg": true, "internal/abi": true,
 	"internal/oserror": false, "io/fs": false, "path/filepath": false, "internal/testlog": true, "internal/syscall/execenv": true,
-	"context": false, "testing": true, "encoding/json": true, "flag": true, "log": true, "runtime/debug": true, "runtime/pprof": true,
+	"context": false, "testing": true, "encoding/json": true, "flag": false, "log": true, "runtime/debug": true, "runtime/pprof": true,
 	"internal/sync": true, "internal/race": true, "internal/runtime/atomic": true, "unique": true, "weak": true, "iter": false,
 	"golang.org/x/sys/unix": true, "golang.org/x/term": true, "internal/filepathlite": false, "internal/goos": true,
 	"internal/runtime/maps": true, "internal/runtime/exithook": true, "hash/maphash": true, "internal/stringslite": false,
